@@ -298,7 +298,7 @@ def run(ctx):
                 "$? $- OPTIND OPTARG x y PWD $! \"$@\" and the stdout of the call. search: every builtin name x 0..11 odd arguments in 17 calling contexts "
                 "after 16 preludes with repeated calls and changing parameters; ~330 statement templates x ~330 word forms in the five variants; the "
                 "string literals of interp/*_test.go that parse, as is and under a fixed enumeration of mutations (number tokens -> odd numbers, word "
-                "dropped/duplicated/emptied, 12 wrapping contexts); interp.New with random option lists and interp.Params with odd arguments. "
+                "dropped/duplicated/emptied, 12 wrapping contexts); a fixed enumeration of parameter expansions: 19 subjects (scalars, unset, $@ $* arrays, sparse and associative arrays, positional and special parameters) x every operator (# ## % %% ^ ^^ , ,, : :- - := = :+ + :? ? / // /# /% with one or two arguments) x 27 argument forms that are present in the source but expand to nothing ($unset, \"\", $(true), ...) or to something, unquoted / quoted / in for and [[ ]]; interp.New with random option lists and interp.Params with odd arguments. "
                 "non-trivial = distinct program texts that parse and were run to completion")
     code_leg(ctx, binp, 500 if ctx.tier == "quick" else 6000)
     code_leg2(ctx, binp, 400 if ctx.tier == "quick" else 5000)
